@@ -334,7 +334,7 @@ func (d c10) Execute(c *core.Case) (res *core.Result) {
 	}
 	// (ii) verdict
 	verdict := ""
-	if len(res.Violations) == 0 {
+	{
 		_, verr := policy.NewPolicyVerifier(gi).VerifyRefFull(context.Background(), mainRef)
 		verdict = world.Classify(verr)
 		switch verdictExpect {
